@@ -81,7 +81,8 @@ def leg_m(rep, work, spec, name, cfg, expect_actions=(), workers=NPROC, timeout=
     if not res.ok:
         raise TLCError(f"design model {spec}/{name} violates {res.kind} {res.name} - the specification itself "
                        f"is wrong, nothing about haiway is concluded:\n" +
-                       "\n".join(f"  {l}: {s[:300]}" for l, s in res.trace[-8:]))
+                       "\n".join(f"  {l}" for l, s in res.trace[-12:]) + "\n  last state: " +
+                       (res.trace[-1][1].replace("\n", " ")[:1500] if res.trace else ""))
     missing = [a for a in expect_actions if res.coverage.get(a, (0, 0))[1] == 0]
     if missing:
         raise TLCError(f"vacuous model {spec}/{name}: actions never taken: {missing}")
